@@ -311,6 +311,22 @@ Fixpoint well_formed (t : etree) : bool :=
     end
   end.
 
+(* structural well-formedness only (what the parser itself guarantees for its output): names
+   contain no structural character; parentheses iff children.  The payload of a checksummed
+   string may contain earlier '#' characters, so names of parsed trees may. *)
+Definition nonstruct (c : N) : bool := negb (is_open c) && negb (is_close c) && negb (c =? COMMA).
+Fixpoint swf (t : etree) : bool :=
+  match t with
+  | ENode name p cs =>
+    forallb nonstruct name &&
+    match p, cs with
+    | PNone, [] => true
+    | PNone, _ :: _ => false
+    | _, [] => false
+    | _, _ :: _ => forallb swf cs
+    end
+  end.
+
 (* index of the last child when the first child has index [st] *)
 Fixpoint last_start (cs : list etree) (st : N) : option N :=
   match cs with
